@@ -86,14 +86,35 @@ func msgOf(v interface{}) sx.S {
 	return out
 }
 
-type evObj struct{ vals []int }
+type evObj struct {
+	vals []int
+	bad  []bool // the field's resolution fails on this event
+}
 
 func (e *evObj) Resolve(f *ggql.Field, _ map[string]interface{}) (interface{}, error) {
 	i, err := strconv.Atoi(strings.TrimPrefix(f.Name, "f"))
 	if err != nil || i >= len(e.vals) {
 		return nil, fmt.Errorf("no field %s", f.Name)
 	}
+	if i < len(e.bad) && e.bad[i] {
+		return nil, fmt.Errorf("field %s fails on this event", f.Name)
+	}
 	return e.vals[i], nil
+}
+
+// evOf reads the values of an event: integers, or null for a field whose resolution fails
+func evOf(vals sx.S) *evObj {
+	ev := &evObj{}
+	for _, x := range sx.List(vals) {
+		if a, ok := x.(string); ok && a == "null" {
+			ev.vals = append(ev.vals, 0)
+			ev.bad = append(ev.bad, true)
+		} else {
+			ev.vals = append(ev.vals, sx.Int(x))
+			ev.bad = append(ev.bad, false)
+		}
+	}
+	return ev
 }
 
 type subRootObj struct {
@@ -103,6 +124,9 @@ type subRootObj struct {
 func (s *subRootObj) Resolve(f *ggql.Field, args map[string]interface{}) (interface{}, error) {
 	p, _ := args["p"].(int32)
 	u, _ := args["u"].(int32)
+	if p == 77777 {
+		return nil, fmt.Errorf("no such topic") // a sibling field of the request that cannot be subscribed to
+	}
 	sc, _ := args["s"].(string)
 	h := &hsub{uid: int(u), pat: int(p), log: s.log}
 	for _, c := range sc {
@@ -176,11 +200,19 @@ func c19Exec(input sx.S) (obs sx.S) {
 			} else {
 				outs = append(outs, sx.L("rsub"))
 			}
-		case "pub":
-			ev := &evObj{}
-			for _, x := range sx.List(ol[2]) {
-				ev.vals = append(ev.vals, sx.Int(x))
+		case "subfail":
+			// the same request with one more field that fails: the request is answered with an error and
+			// registers nobody (no output of its own: what follows shows whether somebody was registered)
+			subs := append(append([]sx.S{}, ol[1:]...), sx.L("s", "9999", "77777", sx.L("0"), sx.L()))
+			if len(outs)%2 == 0 { // the failing field first, or last
+				subs = append([]sx.S{subs[len(subs)-1]}, subs[:len(subs)-1]...)
 			}
+			res := root.ResolveString(subRequest(subs), "", nil)
+			if _, has := res["errors"]; !has {
+				outs = append(outs, sx.L("rsubfail-accepted"))
+			}
+		case "pub":
+			ev := evOf(ol[2])
 			cnt, err := root.AddEvent("e"+ol[1].(string), ev)
 			outs = append(outs, sx.L("rpub", sx.A(cnt), sx.A(err != nil), append([]sx.S{}, log.del...), sx.SortedInts(log.clean)))
 		case "unsub":
@@ -366,9 +398,18 @@ func c19Gen(r *rand.Rand, tier string) []Case {
 			switch x := r.Intn(10); {
 			case x < 4:
 				uid++
+				if r.Intn(8) == 0 {
+					// a request with one more field that cannot be subscribed to: nobody is registered
+					ops = append(ops, sx.L("subfail", c19Sub(r, uid, npat)))
+					break
+				}
 				ops = append(ops, sx.L("sub", c19Sub(r, uid, npat)))
 			case x < 8:
-				ops = append(ops, sx.L("pub", sx.A(r.Intn(npat)), sx.Ints([]int{r.Intn(100), r.Intn(100) - 50, r.Intn(3), 7})))
+				ev := []sx.S{sx.A(r.Intn(100)), sx.A(r.Intn(100) - 50), sx.A(r.Intn(3)), "7"}
+				if r.Intn(6) == 0 {
+					ev[r.Intn(4)] = "null" // this field fails on this event: null in the message, an error reported, the subscriber stays
+				}
+				ops = append(ops, sx.L("pub", sx.A(r.Intn(npat)), ev))
 			default:
 				ops = append(ops, sx.L("unsub", sx.A(r.Intn(npat))))
 			}
@@ -442,7 +483,7 @@ func c19Valid(input sx.S) bool {
 			if len(ol) != 1 {
 				return false
 			}
-		case "sub":
+		case "sub", "subfail":
 			if len(ol) != 2 { // one subscription field per operation (several: Go map order, see DESIGN F19)
 				return false
 			}
@@ -468,7 +509,9 @@ func c19Valid(input sx.S) bool {
 				return false
 			}
 			for _, v := range sx.List(ol[2]) {
-				_ = sx.Int(v)
+				if a, ok := v.(string); !ok || a != "null" {
+					_ = sx.Int(v)
+				}
 			}
 		case "unsub":
 			if len(ol) != 2 || sx.Int(ol[1]) < 0 {
